@@ -320,11 +320,14 @@ impl<T> EventSource for Executor<T> {
         let state = &self.state;
 
         let (clear_readiness, action) = {
-            let mut clear_readiness = false;
+            // Also set when the event was not ours at all (a parent source may hand us the events of its other
+            // sub-sources): there is nothing to re-run then.
+            let mut clear_readiness = true;
 
             let action = self
                 .source
                 .process_events(readiness, token, |(), &mut ()| {
+                    clear_readiness = false;
                     // Set to the unnotified state.
                     #[cfg(feature = "verif_hooks")]
                     crate::verif::yield_point(crate::verif::Site::EX_CLEAR_PRE, crate::verif::SiteKind::Normal);
